@@ -410,7 +410,9 @@ func c02Setters(st *universe.Struct) []c02Setter {
 			)
 		case universe.KPublicKey:
 			out = append(out,
-				c02Setter{f.Term + ".id", func(e reflect.Value, s string) { e.Field(f.Index).Set(reflect.ValueOf(ap.PublicKey{ID: ap.IRI(s), PublicKeyPem: "PEM"})) }},
+				c02Setter{f.Term + ".id", func(e reflect.Value, s string) {
+					e.Field(f.Index).Set(reflect.ValueOf(ap.PublicKey{ID: ap.IRI(s), PublicKeyPem: "PEM"}))
+				}},
 				c02Setter{f.Term + ".owner", func(e reflect.Value, s string) {
 					e.Field(f.Index).Set(reflect.ValueOf(ap.PublicKey{ID: "https://example.com/k", Owner: ap.IRI(s)}))
 				}},
@@ -504,7 +506,9 @@ func c02Run(c *engine.Ctx) {
 				n[untaggedAt].Ref = ap.LangRef(tag)
 				return &ap.Object{ID: "https://example.com/1", Type: ap.NoteType, Name: n, Content: n}
 			}
-			c02Check(c, "untagged-in-map", fmt.Sprintf("untagged(%q)", tag), func() string { return fmt.Sprintf("*Object whose name and content have 3 entries, entry %d untagged (%q)", untaggedAt, tag) }, build, both, true)
+			c02Check(c, "untagged-in-map", fmt.Sprintf("untagged(%q)", tag), func() string {
+				return fmt.Sprintf("*Object whose name and content have 3 entries, entry %d untagged (%q)", untaggedAt, tag)
+			}, build, both, true)
 		}
 	}
 	// (iv) scalar marshalers
@@ -518,7 +522,9 @@ func c02Run(c *engine.Ctx) {
 			},
 			"MimeType":               func() any { return ap.MimeType(h.s) },
 			"ActivityVocabularyType": func() any { return ap.ActivityVocabularyType(h.s) },
-			"NaturalLanguageValues":  func() any { return ap.NaturalLanguageValues{{Ref: "en", Value: ap.Content(h.s)}, {Ref: ap.LangRef("x" + h.s), Value: ap.Content("v")}} },
+			"NaturalLanguageValues": func() any {
+				return ap.NaturalLanguageValues{{Ref: "en", Value: ap.Content(h.s)}, {Ref: ap.LangRef("x" + h.s), Value: ap.Content("v")}}
+			},
 			"NaturalLanguageValues1": func() any { return ap.NaturalLanguageValues{{Ref: "-", Value: ap.Content(h.s)}} },
 		}
 		names := make([]string, 0, len(scalars))
